@@ -16,6 +16,7 @@ Ltac jsolve_val :=
     | solve [unfold wrap in *; lia]
     | solve [bit_norm; unfold wrap in *; case_cmp; cbn [Z.b2z negb andb orb]; lia]
     | solve [rewrite ?wrap_S32_id by (unfold wrap in *; lia); rewrite ?wrap_S64_id by (unfold wrap in *; lia); reflexivity]
+    | solve [rewrite Z.lxor_m1_r; reflexivity]                 (* x ^ -1 is the bitwise complement *)
     | solve [rewrite Z.mod_small by lia; reflexivity]
     | solve [rewrite Z.mod_small by lia; rewrite land_bit32_zero by (unfold int32; lia);
              rewrite negb_involutive; reflexivity]
